@@ -161,7 +161,10 @@ class Hist(Stream):
         return sc.q_steps(self.kind, case, obs)
 
     def oracle(self, case, obs):
-        return frame_oracle(self.kind, case, obs)
+        try:
+            return frame_oracle(self.kind, case, obs)
+        except Exception as e:      # observations the oracle was not written for are themselves a failure
+            return 'unexpected observations: the oracle could not evaluate this history (%s: %s)' % (type(e).__name__, e)
 
     def key(self, case, obs):
         empty = [[], []] if self.kind == 'shared' else []
